@@ -150,7 +150,27 @@ def _bp_type_const(kind: str) -> str:
     return "betterproto.TYPE_MESSAGE"
 
 
-def _field_source(f: Field) -> str:
+def _pep604(ann: str) -> str:
+    """The annotation as the plugin writes it under typing.310: builtin generics and ``X | None``,
+    the whole annotation one string (forward references)."""
+    import re
+    a = ann.replace('"', "")
+    a = a.replace("List[", "list[").replace("Dict[", "dict[")
+    while "Optional[" in a:
+        a = re.sub(r"Optional\[([^\[\]]*)\]", r"\1 | None", a)
+    return f'"{a}"'
+
+
+def _field_source(f: Field, style: str = "typing") -> str:
+    src = _field_source_typing(f)
+    if style == "pep604":
+        head, rest = src.split(" = ", 1)
+        name, ann = head.split(": ", 1)
+        return f"{name}: {_pep604(ann)} = {rest}"
+    return src
+
+
+def _field_source_typing(f: Field) -> str:
     b = f.base
     elem = _py_elem_type(f.kind)
     if f.card == "map":
@@ -181,7 +201,7 @@ def _field_source(f: Field) -> str:
     return f"    {f.name}: {ann} = betterproto.{fn}({', '.join(args)})"
 
 
-def render_bp_source(schema: Schema) -> str:
+def render_bp_source(schema: Schema, style: str = "typing") -> str:
     out = [
         "from dataclasses import dataclass",
         "from datetime import datetime, timedelta",
@@ -200,7 +220,7 @@ def render_bp_source(schema: Schema) -> str:
         if not m.fields:
             out.append("    pass")
         for f in m.fields:
-            out.append(_field_source(f))
+            out.append(_field_source(f, style))
         out.append("")
     return "\n".join(out)
 
@@ -208,14 +228,15 @@ def render_bp_source(schema: Schema) -> str:
 _counter = [0]
 
 
-def build_bp(schema: Schema, modname: Optional[str] = None):
-    """Exec the rendered source in a fresh synthetic module and return it."""
+def build_bp(schema: Schema, modname: Optional[str] = None, style: str = "typing"):
+    """Exec the rendered source in a fresh synthetic module and return it.  style='pep604' writes
+    the annotations the way the plugin does under typing.310 (``"X | None"``, ``"list[X]"``)."""
     if modname is None:
         _counter[0] += 1
         modname = f"vf_synth_{_counter[0]}"
     mod = types.ModuleType(modname)
     sys.modules[modname] = mod
-    src = render_bp_source(schema)
+    src = render_bp_source(schema, style)
     mod.__dict__["__vf_source__"] = src
     exec(compile(src, f"<{modname}>", "exec"), mod.__dict__)
     return mod
